@@ -15,11 +15,14 @@
                    * the tracked variables read by the executed body have values in UVal;
                    * dds.keep(p, g, e..): an argument seen by the analysis as the constant v IS the expression v, and v is
                      readable (excludes the marker string as a literal: F04-marker);
-                   * g(e..) PLAIN CALL: an explicit argument for a parameter that has a default is the default itself.
-                     !! NEW FINDING, reproduced on the real library: the analysis of a plain call ignores the arguments
-                     (get_arg_ctx_ast(g, [], {})), binds defaulted parameters to their defaults and, when every parameter
-                     has a default, drops the call-site context: g(5) and g(7) for def g(x=3) give g - and every keep
-                     below g - the same signature; the stale result is served.  C01_refuted_plain_call_default.
+                   * (nothing is asked of a plain call g(e..).  FINDING F30, discovered by this proof and reproduced on the
+                     real library: the analysis of a plain call ignored the arguments (get_arg_ctx_ast(g, [], {})), bound
+                     defaulted parameters to their defaults and, when every parameter had a default, dropped the call-site
+                     context: g(5) and g(7) for def g(x=3) gave g - and every keep below g - the same signature, and the
+                     stale result was served.  REPAIRED by a fix in /repo (F30): a parameter bound explicitly by a plain
+                     call is now unknown, so the call site is part of the signature; the model follows (Sig.unbind), the
+                     former hypothesis call_args_ok is gone, and C01_plain_call_explicit_argument_tracked is the
+                     regression theorem on the program that exhibited the finding.)
                    * apply(g): g is the function (same tree) of the first earlier by-name mention with that name
                      (modelling constraint, C01_refuted_apply_unlinked).
    - u_text      equal source lines => equal skeleton (tag, raises, parameters, is_class, and for the executed body the
@@ -45,7 +48,7 @@
    - h_coherent  in one evaluation no path is kept with two different signatures (known findings F12 / F26,
                  C01_refuted_same_path_twice); decidable on the analysed tree.
    Suspects checked: (i) EVar indexing - fine (variable VALUES are in the content, names do not matter); (ii) SApply -
-   needs the link above; (iii) SRef false / numbering of locals - fine; (iv) defaults - the NEW FINDING; (v) classes - fine
+   needs the link above; (iii) SRef false / numbering of locals - fine; (iv) defaults - finding F30, repaired; (v) classes - fine
    (the first method is executed, every method is in the signature). *)
 From Coq Require Import List String ZArith NArith.
 From DDS Require Import Base.Bytes L0_Hash.PyVal L0_Hash.DdsHash L1_Args.ArgCtx L3_Sig.Program L3_Sig.Sig L3_Sig.SigTree
@@ -183,22 +186,20 @@ Theorem C01_universe_example_history :
 Proof. exact sx_end_to_end. Qed.
 Print Assumptions C01_universe_example_history.
 
-(* REFUTATIONS (by computation): what goes wrong without the hypotheses. *)
-(* NEW FINDING: explicit argument of a plain call for a parameter with a default. *)
-Theorem C01_refuted_plain_call_default :
-  (exists c, rf_child_content rf_f5 = Some c /\ rf_child_content rf_f7 = Some c) /\
-  site_pv (SCall 1 1 rf_g [ELit (VInt 5)]) (Env [] [] []) = Some [RVal (VInt 5)] /\
-  site_pv (SCall 1 1 rf_g [ELit (VInt 7)]) (Env [] [] []) = Some [RVal (VInt 7)] /\
-  pv_fn rf_g [RVal (VInt 5)] <> pv_fn rf_g [RVal (VInt 7)] /\
-  ~ call_args_ok (fn_params rf_g) [ELit (VInt 5)] /\
+(* Regression theorem of finding F30 (explicit argument of a plain call for a parameter with a default), on the program
+   that exhibited it: def h(x); def g(x=3): return dds.keep("/p", h, x); def f(): return g(5) / g(7).  With the fixed
+   analysis the kept node below g has different signature terms in the two versions, x is unknown in the argument context
+   of g, and the second version evaluated after the first returns its own plain value. *)
+Theorem C01_plain_call_explicit_argument_tracked :
+  (exists t5 t7, rf_kept_sig rf_f5 = Some t5 /\ rf_kept_sig rf_f7 = Some t7 /\ t5 <> t7) /\
+  site_named ex_hv (SCall 1 1 rf_g [ELit (VInt 5)]) = inr [(bs "x", None)] /\
   (let s1 := snd (dds_call rf_H None rf_cfg rf_f5 StEval [] [] st_empty) in
-   fst (dds_call rf_H None rf_cfg rf_f7 StEval [] [] s1) =
-     Ret (RTup [RVal (VStr (bs "f")); RTup [RVal (VStr (bs "g")); RVal (VInt 7);
-                                            RTup [RVal (VStr (bs "h")); RVal (VInt 5)]]]) /\
-   fst (dds_call rf_H None rf_cfg rf_f7 StEval [] [] s1) <> pv_fn rf_f7 []).
-Proof. exact plain_call_default_refuted. Qed.
-Print Assumptions C01_refuted_plain_call_default.
+   fst (dds_call rf_H None rf_cfg rf_f7 StEval [] [] s1) = pv_fn rf_f7 [] /\
+   pv_fn rf_f7 [] <> pv_fn rf_f5 []).
+Proof. exact plain_call_explicit_argument_tracked. Qed.
+Print Assumptions C01_plain_call_explicit_argument_tracked.
 
+(* REFUTATIONS (by computation): what goes wrong without the hypotheses. *)
 Theorem C01_refuted_marker_literal : forall hv,
   sprocess_arg hv (ALit VNone) = sprocess_arg hv (ALit (VStr default_marker)) /\ VNone <> VStr default_marker.
 Proof. exact marker_literal_refuted. Qed.
